@@ -169,11 +169,27 @@ func c26(p *an.Prog, r *an.R, tier string) {
 		if !r.Anchor(ed != nil && dd != nil && spec.typ != nil, spec.enc+"/"+spec.dec) {
 			continue
 		}
-		eu := an.FieldUses(ed.Pkg.TypesInfo, ed.Decl.Body, spec.typ)
-		du := an.FieldUses(dd.Pkg.TypesInfo, dd.Decl.Body, spec.typ)
+		// the encoder/decoder and the helpers split off them (e.g. a reader method for one sub-record)
+		readBy, setBy := map[string]bool{}, map[string]bool{}
+		for _, x := range calleeDecls(p, ed) {
+			for k := range an.FieldUses(x.Pkg.TypesInfo, x.Decl.Body, spec.typ).Read {
+				readBy[k] = true
+			}
+		}
+		for _, x := range calleeDecls(p, dd) {
+			u := an.FieldUses(x.Pkg.TypesInfo, x.Decl.Body, spec.typ)
+			for k := range u.Written {
+				setBy[k] = true
+			}
+			if u.AllSet {
+				for _, f := range an.StructFields(spec.typ) {
+					setBy[f.Name()] = true
+				}
+			}
+		}
 		for _, f := range an.StructFields(spec.typ) {
-			_, read := eu.Read[f.Name()]
-			_, set := du.Written[f.Name()]
+			read := readBy[f.Name()]
+			set := setBy[f.Name()]
 			key := fmt.Sprintf("%s.%s/encoded-and-decoded", spec.typ.Obj().Name(), f.Name())
 			r.Check(read == set || (set && !read), "C26.R3", key, dd.Decl.Pos(), fmt.Sprintf("encoder reads it: %v, decoder sets it: %v", read, set),
 				"the encoder writes "+spec.typ.Obj().Name()+"."+f.Name()+" but the decoder never sets it: the value does not survive a round trip")
